@@ -464,7 +464,7 @@ def _squeeze(a: Arr) -> Arr:
 def _segments_of(interp, x, issues, what, lineno):
     """-> list of ('seg', Arr) or list of ('rng', lo, n, Arr) for scatter-assembled arrays"""
     ctx = interp.ctx
-    if isinstance(x, View) and isinstance(x.base, Box) and x.base.log and \
+    if isinstance(x, View) and isinstance(x.base, Box) and x.base.log and x.base.base_zero and \
             any(k[0][0] in ('adv', 'basic') for k in x.base.log) and x.base.cur.ndim == 1:
         box = x.base
         key = x.key if isinstance(x.key, tuple) else (x.key,)
